@@ -20,13 +20,13 @@ Notation MD := Exactly.
 (* ---------- deciding side conditions ---------- *)
 Definition dec_true (b : bool) : option (b = true) :=
   match b as b' return option (b' = true) with true => Some eq_refl | false => None end.
+Definition dec_false (b : bool) : option (b = false) :=
+  match b as b' return option (b' = false) with false => Some eq_refl | true => None end.
 Definition ok_dec {A} (r : res A) : option { a : A | r = Ok a } :=
   match r as r' return option { a : A | r' = Ok a } with
   | Ok a => Some (exist _ a eq_refl)
   | Bad _ _ => None
   end.
-Definition dec_false (b : bool) : option (b = false) :=
-  match b as b' return option (b' = false) with false => Some eq_refl | true => None end.
 Definition some_dec {A} (r : option A) : option { a : A | r = Some a } :=
   match r as r' return option { a : A | r' = Some a } with
   | Some a => Some (exist _ a eq_refl)
@@ -145,11 +145,21 @@ Definition t_root (G : env) (t : sty) (x : tfit G t) : option (troot G t) :=
   end.
 Definition t_bin (G : env) (op : binop) (t al ar : sty) (l : texpr G al) (r : texpr G ar) : option (texpr G (op_result op t)) :=
   match dec_true (fits t al), dec_true (fits t ar), dec_true (sty_eqb al t || sty_eqb ar t),
-        dec_true (op_class_ok op t), dec_true (ops_visible G t) with
-  | Some p1, Some p2, Some p3, Some p4, Some p5 =>
+        dec_true (op_class_ok op t), dec_true (ops_visible G t), dec_false (ord_array op t) with
+  | Some p1, Some p2, Some p3, Some p4, Some p5, Some p6 =>
       Some (exist _ (EBin 0 op (proj1_sig l) (proj1_sig r))
-                  (HT_Bin MD GE G 0 op _ _ al ar t (proj2_sig l) (proj2_sig r) p1 p2 p3 p4 p5))
-  | _, _, _, _, _ => None
+                  (HT_Bin MD GE G 0 op _ _ al ar t (proj2_sig l) (proj2_sig r) p1 p2 p3 p4 p6 p5))
+  | _, _, _, _, _, _ => None
+  end.
+(* l < r for two arrays of discrete elements: the resolution is the reference's *)
+Definition t_ordarr (G : env) (l r : expr) : option (texpr G SBool) :=
+  match ok_dec (interp MD GE G (EBin 0 OLt l r)) with
+  | Some (exist _ lst pf) =>
+      match dec_true (existsb (sty_eqb SBool) lst) with
+      | Some pe => Some (exist _ (EBin 0 OLt l r) (HT_OrdArr MD GE G 0 l r lst pf pe))
+      | None => None
+      end
+  | None => None
   end.
 Definition t_not (G : env) (t : sty) (e : texpr G t) : option (texpr G t) :=
   match dec_true (match t with SBool | SBit => true | _ => false end) with
@@ -245,112 +255,6 @@ Definition obj_fit (G : env) (c : gctx) (t : sty) (k : N) : option (tfit G t) :=
   end.
 
 Definition first_some {A} (x y : option A) : option A := match x with Some _ => x | None => y end.
-
-(* operand type for a comparison: a type some visible object has *)
-Definition some_scalar (c : gctx) (k : N) : sty :=
-  let ts := SInt :: SBool :: SBit ::
-            flat_map (fun x => match go_ty x with SEnum _ _ _ | SIntT _ _ => [go_ty x] | _ => [] end) (c_objs c) in
-  nth (N.to_nat k mod length ts) ts SInt.
-
-Fixpoint gen_e (fuel : nat) (G : env) (c : gctx) (t : sty) {struct fuel} : gen (option (tfit G t)) :=
-  k <= pick 1000 ;;
-  let leaf := first_some (if k mod 3 =? 0 then lit_fit G c t k else obj_fit G c t k)
-                         (first_some (obj_fit G c t k) (lit_fit G c t k)) in
-  match fuel with
-  | O => gret leaf
-  | S f =>
-      w <= pick 10 ;;
-      if w <? 4 then gret leaf
-      else if w <? 7 then
-        (* function call *)
-        let cands := filter (fun x => match gf_ret x with Some r => fits t r | None => false end) (c_subs c) in
-        fx <= pick_from cands ;;
-        match fx with
-        | None => gret leaf
-        | Some fx =>
-            let fn := ref_fname (gf_ref fx) (gf_id fx) in
-            match ok_dec (callee_bindings GE G fn) with
-            | None => gret leaf
-            | Some (exist _ bs pf) =>
-                i <= pick_nat (length (funs_of bs)) ;;
-                match some_dec (nth_error (funs_of bs) i) with
-                | Some (exist _ (ps, r) pk) =>
-                    npos <= pick_nat (S (length ps)) ;;
-                    a <= gen_args G (gen_e f G c) npos ps ;;
-                    gret (match a with
-                          | Some a => first_some (fit_of G t r (t_call G fn bs pf i ps r pk a)) leaf
-                          | None => leaf
-                          end)
-                | None => gret leaf
-                end
-            end
-        end
-      else if w <? 9 then
-        (* operator *)
-        match t with
-        | SBool =>
-            opk <= pick 5 ;;
-            if opk <? 2 then
-              l <= gen_e f G c SBool ;; r <= gen_e f G c SBool ;;
-              gret (match l, r with
-                    | Some (existT _ al (el, _)), Some (existT _ ar (er, _)) =>
-                        match t_bin G (if opk =? 0 then OAnd else OOr) SBool al ar el er with
-                        | Some e => first_some (fit_of G t _ e) leaf | None => leaf end
-                    | _, _ => leaf end)
-            else
-              tk <= pick 1000 ;;
-              let ot := some_scalar c tk in
-              l <= gen_e f G c ot ;; r <= gen_e f G c ot ;;
-              gret (match l, r with
-                    | Some (existT _ al (el, _)), Some (existT _ ar (er, _)) =>
-                        match t_bin G (if opk =? 2 then OEq else if opk =? 3 then ONe else OLt) ot al ar el er with
-                        | Some e => first_some (fit_of G t _ e) leaf | None => leaf end
-                    | _, _ => leaf end)
-        | SBit =>
-            opk <= pick 2 ;;
-            l <= gen_e f G c SBit ;; r <= gen_e f G c SBit ;;
-            gret (match l, r with
-                  | Some (existT _ al (el, _)), Some (existT _ ar (er, _)) =>
-                      match t_bin G (if opk =? 0 then OAnd else OOr) SBit al ar el er with
-                      | Some e => first_some (fit_of G t _ e) leaf | None => leaf end
-                  | _, _ => leaf end)
-        | _ =>
-            if is_int t then
-              opk <= pick 3 ;;
-              l <= gen_e f G c t ;; r <= gen_e f G c t ;;
-              gret (match l, r with
-                    | Some (existT _ al (el, _)), Some (existT _ ar (er, _)) =>
-                        match t_bin G (if opk =? 0 then OAdd else if opk =? 1 then OSub else OMul) t al ar el er with
-                        | Some e => first_some (fit_of G t _ e) leaf | None => leaf end
-                    | _, _ => leaf end)
-            else gret leaf
-        end
-      else
-        (* not / qualified expression *)
-        match t with
-        | SBool | SBit =>
-            x <= gen_e f G c t ;;
-            gret (match x with
-                  | Some (existT _ a (e, _)) =>
-                      match t_not G a e with Some e' => first_some (fit_of G t a e') leaf | None => leaf end
-                  | None => leaf end)
-        | _ =>
-            match tmark_of c t with
-            | Some tm =>
-                match ok_dec (resolve_tmark GE G tm) with
-                | Some (exist _ t' pf) =>
-                    x <= gen_e f G c t' ;;
-                    gret (match x with
-                          | Some x => match t_root G t' x with
-                                      | Some rt => first_some (fit_of G t t' (t_qual G tm t' pf rt)) leaf
-                                      | None => leaf end
-                          | None => leaf end)
-                | None => gret leaf
-                end
-            | None => gret leaf
-            end
-        end
-  end.
 
 (* ---------- complete contexts (with aggregates) ---------- *)
 Definition ok_tt (r : res unit) : option (r = Ok tt) :=
@@ -458,21 +362,174 @@ End WithRootGen.
 Definition root_of_fit (G : env) (t : sty) (x : option (tfit G t)) : option (troot G t) :=
   match x with Some x => t_root G t x | None => None end.
 
-Fixpoint gen_r (fuel : nat) (G : env) (c : gctx) (t : sty) {struct fuel} : gen (option (troot G t)) :=
+(* operand type for a comparison: a type some visible object has *)
+Definition some_scalar (c : gctx) (k : N) : sty :=
+  let ts := SInt :: SBool :: SBit ::
+            flat_map (fun x => match go_ty x with SEnum _ _ _ | SIntT _ _ | SRec _ _ _ | SArr _ _ _ _ => [go_ty x] | _ => [] end) (c_objs c) in
+  nth (N.to_nat k mod length ts) ts SInt.
+
+Definition gen_leaf (G : env) (c : gctx) (t : sty) : gen (option (tfit G t)) :=
+  k <= pick 1000 ;;
+  gret (first_some (if k mod 3 =? 0 then lit_fit G c t k else obj_fit G c t k)
+                   (first_some (obj_fit G c t k) (lit_fit G c t k))).
+
+Fixpoint gen_e (fuel : nat) (G : env) (c : gctx) (t : sty) {struct fuel} : gen (option (tfit G t)) :=
+  k <= pick 1000 ;;
+  let leaf := first_some (if k mod 3 =? 0 then lit_fit G c t k else obj_fit G c t k)
+                         (first_some (obj_fit G c t k) (lit_fit G c t k)) in
   match fuel with
-  | O => x <= gen_e 0 G c t ;; gret (root_of_fit G t x)
+  | O => gret leaf
   | S f =>
+      w <= pick 10 ;;
+      if w <? 4 then gret leaf
+      else if w <? 7 then
+        (* function call *)
+        let cands := filter (fun x => match gf_ret x with Some r => fits t r | None => false end) (c_subs c) in
+        fx <= pick_from cands ;;
+        match fx with
+        | None => gret leaf
+        | Some fx =>
+            let fn := ref_fname (gf_ref fx) (gf_id fx) in
+            match ok_dec (callee_bindings GE G fn) with
+            | None => gret leaf
+            | Some (exist _ bs pf) =>
+                i <= pick_nat (length (funs_of bs)) ;;
+                match some_dec (nth_error (funs_of bs) i) with
+                | Some (exist _ (ps, r) pk) =>
+                    npos <= pick_nat (S (length ps)) ;;
+                    a <= gen_args G (gen_e f G c) npos ps ;;
+                    gret (match a with
+                          | Some a => first_some (fit_of G t r (t_call G fn bs pf i ps r pk a)) leaf
+                          | None => leaf
+                          end)
+                | None => gret leaf
+                end
+            end
+        end
+      else if w <? 9 then
+        (* operator *)
+        match t with
+        | SBool =>
+            opk <= pick 8 ;;
+            if 5 <=? opk then
+              (* a composite object compared with an aggregate (either side) *)
+              ox <= pick_from (filter (fun x => is_composite (go_ty x)) (c_objs c)) ;;
+              eqk <= pick 3 ;; side <= flip ;;
+              let op := if eqk =? 0 then OEq else if eqk =? 1 then ONe else OLt in
+              match ox with
+              | None => gret leaf
+              | Some ox =>
+                  let ln := ENam (ref_name (go_ref ox) (go_id ox)) in
+                  match ok_dec (interp MD GE G ln) with
+                  | Some (exist _ li pl) =>
+                      match some_dec (agg_type G op li) with
+                      | Some (exist _ ta pt) =>
+                          r <= gen_r f G c ta ;;
+                          gret (match r with
+                                | Some r =>
+                                    match dec_true (is_aggregate (proj1_sig r)) with
+                                    | Some pa =>
+                                        let e : texpr G (op_result op ta) :=
+                                          if side
+                                          then exist _ (EBin 0 op ln (proj1_sig r))
+                                                       (HT_BinAggR MD GE G 0 op ln _ li ta eq_refl pa pl pt (proj2_sig r))
+                                          else exist _ (EBin 0 op (proj1_sig r) ln)
+                                                       (HT_BinAggL MD GE G 0 op _ ln li ta pa eq_refl pl pt (proj2_sig r)) in
+                                        first_some (fit_of G t _ e) leaf
+                                    | None => leaf
+                                    end
+                                | None => leaf end)
+                      | None => gret leaf
+                      end
+                  | None => gret leaf
+                  end
+              end
+            else if opk <? 2 then
+              l <= gen_e f G c SBool ;; r <= gen_e f G c SBool ;;
+              gret (match l, r with
+                    | Some (existT _ al (el, _)), Some (existT _ ar (er, _)) =>
+                        match t_bin G (if opk =? 0 then OAnd else OOr) SBool al ar el er with
+                        | Some e => first_some (fit_of G t _ e) leaf | None => leaf end
+                    | _, _ => leaf end)
+            else
+              tk <= pick 1000 ;;
+              let ot := some_scalar c tk in
+              l <= gen_e f G c ot ;; r <= gen_e f G c ot ;;
+              gret (match l, r with
+                    | Some (existT _ al (el, _)), Some (existT _ ar (er, _)) =>
+                        match t_bin G (if opk =? 2 then OEq else if opk =? 3 then ONe else OLt) ot al ar el er with
+                        | Some e => first_some (fit_of G t _ e) leaf
+                        | None =>
+                            match (if ord_array OLt ot then t_ordarr G (proj1_sig el) (proj1_sig er) else None) with
+                            | Some e => first_some (fit_of G t _ e) leaf
+                            | None => leaf
+                            end
+                        end
+                    | _, _ => leaf end)
+        | SBit =>
+            opk <= pick 2 ;;
+            l <= gen_e f G c SBit ;; r <= gen_e f G c SBit ;;
+            gret (match l, r with
+                  | Some (existT _ al (el, _)), Some (existT _ ar (er, _)) =>
+                      match t_bin G (if opk =? 0 then OAnd else OOr) SBit al ar el er with
+                      | Some e => first_some (fit_of G t _ e) leaf | None => leaf end
+                  | _, _ => leaf end)
+        | _ =>
+            if is_int t then
+              opk <= pick 3 ;;
+              l <= gen_e f G c t ;; r <= gen_e f G c t ;;
+              gret (match l, r with
+                    | Some (existT _ al (el, _)), Some (existT _ ar (er, _)) =>
+                        match t_bin G (if opk =? 0 then OAdd else if opk =? 1 then OSub else OMul) t al ar el er with
+                        | Some e => first_some (fit_of G t _ e) leaf | None => leaf end
+                    | _, _ => leaf end)
+            else gret leaf
+        end
+      else
+        (* not / qualified expression *)
+        match t with
+        | SBool | SBit =>
+            x <= gen_e f G c t ;;
+            gret (match x with
+                  | Some (existT _ a (e, _)) =>
+                      match t_not G a e with Some e' => first_some (fit_of G t a e') leaf | None => leaf end
+                  | None => leaf end)
+        | _ =>
+            match tmark_of c t with
+            | Some tm =>
+                match ok_dec (resolve_tmark GE G tm) with
+                | Some (exist _ t' pf) =>
+                    x <= gen_e f G c t' ;;
+                    gret (match x with
+                          | Some x => match t_root G t' x with
+                                      | Some rt => first_some (fit_of G t t' (t_qual G tm t' pf rt)) leaf
+                                      | None => leaf end
+                          | None => leaf end)
+                | None => gret leaf
+                end
+            | None => gret leaf
+            end
+        end
+  end
+with gen_r (fuel : nat) (G : env) (c : gctx) (t : sty) {struct fuel} : gen (option (troot G t)) :=
+  (* elements of an aggregate: smaller fuel; without fuel, leaves (so that flat aggregates exist at every depth) *)
+  let gr : forall t' : sty, gen (option (troot G t')) :=
+    match fuel with
+    | O => fun t' => y <= gen_leaf G c t' ;; gret (root_of_fit G t' y)
+    | S f => gen_r f G c
+    end in
+  (
       w <= pick 4 ;;
-      x <= gen_e (S f) G c t ;;
-      leaf <= gen_e 0 G c t ;;
+      x <= (match fuel with O => gen_leaf G c t | S f => gen_e f G c t end) ;;
+      leaf <= gen_leaf G c t ;;
       let plain := first_some (root_of_fit G t x) (root_of_fit G t leaf) in
       match t as t0 return gen (option (troot G t0)) -> gen (option (troot G t0)) with
       | SRec u n fs => fun dflt =>
           if w =? 0 then dflt else
           km <= pick_nat (length fs) ;;
-          a <= (if w =? 1 then gen_fields_pos G (gen_r f G c) fs fs
-                else if w =? 2 then gen_fields_named G (gen_r f G c) (length fs) fs fs
-                else gen_fields_mixed G (gen_r f G c) km fs fs) ;;
+          a <= (if w =? 1 then gen_fields_pos G gr fs fs
+                else if w =? 2 then gen_fields_named G gr (length fs) fs fs
+                else gen_fields_mixed G gr km fs fs) ;;
           match a with
           | Some a =>
               match dec_true (not_single (proj1_sig a)) with
@@ -483,8 +540,8 @@ Fixpoint gen_r (fuel : nat) (G : env) (c : gctx) (t : sty) {struct fuel} : gen (
           end
       | SArr u n len el => fun dflt =>
           if w =? 0 then dflt else
-          a <= (if (w =? 1) && (len <=? 4) then gen_elems_pos G (gen_r f G c) el (N.to_nat len)
-                else gen_elems_others G (gen_r f G c) el (N.to_nat len)) ;;
+          a <= (if (w =? 1) && (len <=? 4) then gen_elems_pos G gr el (N.to_nat len)
+                else gen_elems_others G gr el (N.to_nat len)) ;;
           match a with
           | Some a =>
               match dec_true (not_single (proj1_sig a)) with
@@ -495,7 +552,7 @@ Fixpoint gen_r (fuel : nat) (G : env) (c : gctx) (t : sty) {struct fuel} : gen (
           end
       | _ => fun dflt => dflt
       end (gret plain)
-  end.
+  ).
 
 (* ---------- sequential statements ---------- *)
 (* names of objects of class k (and their fields / elements) that can be assigned *)
